@@ -93,10 +93,33 @@ func xfRender(vals []modbus.FieldValue) string {
 	})
 }
 
+// errChain renders everything a caller can reach from an error through Unwrap (single and multiple)
+func errChain(err error) string {
+	if err == nil || isNilValue(err) {
+		return "nil"
+	}
+	s := fmt.Sprintf("%T:%v", err, err)
+	switch u := err.(type) {
+	case interface{ Unwrap() error }:
+		s += "(" + errChain(u.Unwrap()) + ")"
+	case interface{ Unwrap() []error }:
+		for _, e := range u.Unwrap() {
+			s += "[" + errChain(e) + "]"
+		}
+	}
+	return s
+}
+
 func xfCallKeep(req modbus.BuilderRequest, resp packet.Response, lenient bool) (out string, kept []modbus.FieldValue) {
+	out, kept, _ = xfCallKeepErr(req, resp, lenient)
+	return out, kept
+}
+
+func xfCallKeepErr(req modbus.BuilderRequest, resp packet.Response, lenient bool) (out string, kept []modbus.FieldValue, keptErr error) {
 	out = guarded(func() string {
 		vals, xerr := req.ExtractFields(resp, lenient)
 		kept = vals
+		keptErr = xerr
 		strs := make([]string, len(vals))
 		for j, fv := range vals {
 			if fv.Error != nil {
@@ -116,7 +139,7 @@ func xfCallKeep(req modbus.BuilderRequest, resp packet.Response, lenient bool) (
 		}
 		return "failed "
 	})
-	return out, kept
+	return out, kept, keptErr
 }
 
 func execXf(ts []string) string {
@@ -127,8 +150,8 @@ func execXf(ts []string) string {
 	req := modbus.BuilderRequest{ServerAddress: "x", UnitID: 1, StartAddress: start, Fields: fields}
 	which := variantOf(ts[4] + ts[5])
 	resp := xfResponse(kind, work, which)
-	first, held := xfCallKeep(req, resp, lenient)
-	heldAs := xfRender(held)
+	first, held, heldErr := xfCallKeepErr(req, resp, lenient)
+	heldAs := xfRender(held) + " " + guarded(func() string { return errChain(heldErr) })
 	second := xfCall(req, resp, lenient)
 	same := "same"
 	if !bytes.Equal(work, orig) {
@@ -154,7 +177,9 @@ func execXf(ts []string) string {
 	}
 	// the result of the first extraction is the caller's: the extractions made since (the same one again, every field
 	// alone) have not touched it
-	if xfRender(held) != heldAs {
+	// (one more extraction that fails in another way, so that an error kept from the first one has something to lose)
+	_, _ = modbus.BuilderRequest{ServerAddress: "x", UnitID: 1, StartAddress: start, Fields: modbus.Fields{{Name: "zz", Address: start ^ 0x8000, Type: modbus.FieldTypeUint16}}}.ExtractFields(xfResponse(kind, append([]byte{}, orig...), which), true)
+	if xfRender(held)+" "+guarded(func() string { return errChain(heldErr) }) != heldAs {
 		first += " RETAINED-RESULT-CHANGED-BY-A-LATER-EXTRACTION"
 	}
 	return fmt.Sprintf("%s | %s | solo:%s | payload=%s", first, second, strings.Join(solo, ","), same)
